@@ -61,6 +61,14 @@ def check_role(spec, r):
     tr = ('s', r, 't')
     if m.invert(tr) != ('t', m.invert_role(r), 's'):
         f.append(('invert-triple', '%s -> %r' % (lab, m.invert(tr))))
+    # targets are Constants: str, int, float or None; swapping does not convert them
+    for tgt in (7, None, 1e21, '"x y"', -0.0):
+        for fn, exp in ((m.invert, (tgt, m.invert_role(r), 's')),
+                        (m.deinvert, (tgt, m.invert_role(r), 's') if (m.is_role_inverted(r) and not R.noop) else ('s', r, tgt))):
+            got = fn(('s', r, tgt))
+            if got != exp or [type(x) for x in got] != [type(x) for x in exp] or repr(got) != repr(exp):
+                f.append(('invert-triple-constant-target', '%s: %s(%r) -> %r, expected %r' % (lab, fn.__name__, ('s', r, tgt), got, exp)))
+                break
     d = m.deinvert(tr)
     if R.noop:
         exp = tr
@@ -153,7 +161,7 @@ INSTANCES = {'[0-9]+': ['1', '10', '007'], '[0-9]': ['0', '9']}
 
 def bases_for(spec):
     t = build_table(spec)
-    out = ['', ':', '/', ':foo', 'foo', ':x-y', ':of', ':-', ':ARG0', 'ARG1', ':TOP', ':instance', ':a.b', ':op', ':opx', ':ARG', ':ARG10',
+    out = [t['top_role'], t['concept_role'], t['top_role'][1:], t['concept_role'][1:], '', ':', '/', ':foo', 'foo', ':x-y', ':of', ':-', ':ARG0', 'ARG1', ':TOP', ':instance', ':a.b', ':op', ':opx', ':ARG', ':ARG10',
            ':op1x', ':r', 'mod', 'domain-of', ':\u00e9', ':-of-', ':o-of-x']
     for p in t['roles']:
         if '[' in p:
@@ -183,6 +191,11 @@ def bases_for(spec):
 FIXED_CUSTOM = [
     {'name': 'custom', 'roles': [':a', ':b', ':made-of', ':op[0-9]+'], 'normalizations': {':a-of': ':b', ':b-of': ':a'}, 'reifications': []},
     {'name': 'custom', 'roles': [':x[0-9]y[0-9]+', ':out-of'], 'normalizations': {':alias': ':out-of'}, 'reifications': [], 'noop': True},
+    # normalisation keys that coincide with the model's own top / concept role
+    {'name': 'custom', 'roles': [':ARG0', ':isa', ':root'], 'normalizations': {':TOP': ':root', ':instance': ':isa'}, 'reifications': []},
+    {'name': 'custom', 'roles': [':ARG0', ':isa'], 'normalizations': {':head-of': ':ARG0', ':kind-of': ':isa'}, 'reifications': [],
+     'top_role': ':head-of', 'concept_role': ':kind-of'},
+    {'name': 'custom', 'roles': [':ARG0'], 'normalizations': {}, 'reifications': [], 'concept_role': ':instance-of', 'top_role': ':top'},
 ]
 
 
